@@ -97,6 +97,13 @@ def checkHistory (ac : Bool) : List Cycle → Nat → List Out → Option String
     | some why => some s!"cycle{i}:{why}"
     | none => checkHistory ac rest (i + 1) (outs.drop (cycleOpCount cy))
 
+/-- The executable statement of C11 (also evaluated by the drivers of C12 and C13) on the outputs
+    of a program that is the well-formed history `h`: every call returned (one output per call)
+    and `checkHistory` accepts them.  `none` = the statement holds.  Proved sound with respect to
+    `HistorySpec` in `Properties/C11_checker.lean`. -/
+def historyStatement (ac : Bool) (h : List Cycle) (ops : List Op) (outs : List Out) : Option String :=
+  if outs.length ≠ ops.length then some "history-did-not-complete" else checkHistory ac h 1 outs
+
 def stripTag (tok : String) : String :=
   match tok.splitOn "/" with
   | [r, v, l, p] =>
@@ -129,8 +136,7 @@ def handleTokens (inp : List String) (obs : String) : Verdict :=
         match implToks.mapM parseOut with
         | none => fail "call-returned-unexpected-error-or-died" tags
         | some outs =>
-          if outs.length ≠ ops.length then fail "history-did-not-complete" tags else
-          match checkHistory ac h 1 outs with
+          match historyStatement ac h ops outs with
           | some why => fail why tags
           | none => if m == impl then ok tags else diff m tags
       | none =>
